@@ -13,11 +13,13 @@ rounded once per pixel); the driver always receives the exact rational value of 
 receives, whatever the scale.
 
 Long axes: a pair whose model evaluation would cost more than LONG_COST products (transform length far above 1024)
-goes through `c12.registerLong`: the exact correlation over the WHOLE lag box comes from the driver's integer array
-twin, and the model's own `xcorr` / `xcorrCirc` are evaluated at the decisive lags (maximum, runner-up, true
-translation, the implementation's answer, the mechanism's answer, corners, zero lag, a spread of others) and must
-equal the twin there; on every pair below the limit the driver evaluates model and twin over the whole lag box and
-refuses to answer if they differ."""
+goes through `c12.registerLong`: the exact correlation over the WHOLE lag box comes from the integer array twin of
+PewModel/RegisterFast.lean, which is PROVED equal to the model (PewTheorems.C12: fastLin_eq_xcorr, fastCirc_eq_xcorrCirc,
+peakOfTable_fast_eq_peak, registerOf_fast_eq_register; every dimension, shape, data list, lag).  As a cheap sanity check of
+the compiled code the model's own `xcorr` / `xcorrCirc` are still evaluated at the decisive lags (maximum, runner-up, true
+translation, the implementation's answer, the mechanism's answer, corners, zero lag, a spread of others) and must equal the
+twin there; on every pair below the limit the driver evaluates model and twin over the whole lag box and refuses to answer
+if they differ."""
 import itertools
 import math
 import sys
@@ -140,11 +142,17 @@ class C12(Prop):
                "(correlation theorem) with an error far below the 5 % margin demanded of compared cases",
                "np.pad / np.argmax (first maximum) / np.unravel_index / np.where as documented",
                "pairs whose model evaluation would need more than 1.5e6 products (long axes): the exact correlation over the "
-               "whole lag box (maximum, runner-up, first maximum of the circular array) is computed by the driver's integer "
-               "array twin (PewDriver/C12.lean: fastLin / fastCirc, not covered by a theorem); the twin is compared with the "
-               "model's xcorr and xcorrCirc at the decisive lags of each such pair (maximum, runner-up, true translation, the "
-               "implementation's answer, the mechanism's answer, corners, zero lag, 12 spread lags) and with the whole model "
-               "output on every pair below the limit (several thousand calls per run); any difference stops the run (exit 2)"]
+               "whole lag box (maximum, runner-up, first maximum of the circular array) is computed by the integer array twin "
+               "PewModel/RegisterFast.lean (toFImg / fastLin / fastCirc / peakOfTable / registerOf), which is no longer trusted: "
+               "it is proved equal to the model for every number of dimensions, shape, data list and lag (theorems "
+               "fastLin_eq_xcorr, fastCirc_eq_xcorrCirc, fastLin_table_eq, fastCirc_table_eq, peakOfTable_fast_eq_peak, "
+               "peakOf_fast_eq_peak, registerOf_fast_eq_register; sole hypothesis: both shapes have the same number of axes, "
+               "which the driver checks). What remains trusted on that route is what is trusted everywhere: the Lean compiler "
+               "producing code that agrees with the kernel's reading of the definitions (Array/Int/Rat runtime). The run-time "
+               "comparison of the twin with the model's xcorr and xcorrCirc (decisive lags of each long pair: maximum, runner-up, "
+               "true translation, the implementation's answer, the mechanism's answer, corners, zero lag, 12 spread lags; the "
+               "whole model output on every pair below the limit, several thousand calls per run) is kept as a sanity check of "
+               "exactly that; any difference stops the run (exit 2)"]
     assumptions = ["a pair whose exact cross-correlation maximum leads the runner-up by < 5 % (or by < 1e-9 of the "
                    "product of the 1-norms), or whose maximum is not at the true translation, is outside the property's "
                    "premise ('unique, well-separated maximum') and is masked, never a violation",
